@@ -182,3 +182,67 @@ spec fn hcount_members(m: Seq<(Seq<char>, J)>, s: Strat, n: nat) -> nat decrease
         hcount_members(m, s, (n - 1) as nat) + hcount(v, next_spec(s, k)) + (if sd_spec(s, k) { 1nat } else { 0nat })
     }
 }
+// ---- payload assembly (C05, C04, C11) ----
+spec fn is_root_key(k: Seq<char>) -> bool { k == "iss"@ || k == "iat"@ || k == "exp"@ }
+spec fn without_root(m: Seq<(Seq<char>, J)>) -> Seq<(Seq<char>, J)> decreases m.len() {
+    if m.len() == 0 { m } else if is_root_key(m.last().0) { without_root(m.drop_last()) } else { without_root(m.drop_last()).push(m.last()) }
+}
+// the always-visible members that are present, in the order iss, iat, exp
+spec fn only_root(m: Seq<(Seq<char>, J)>) -> Seq<(Seq<char>, J)> {
+    opt_entry(m, "iss"@) + opt_entry(m, "iat"@) + opt_entry(m, "exp"@)
+}
+spec fn opt_entry(m: Seq<(Seq<char>, J)>, k: Seq<char>) -> Seq<(Seq<char>, J)> { match j_get(m, k) { Some(v) => seq![(k, v)], None => Seq::empty() } }
+spec fn cnf_j(k: jsonwebtoken::jwk::Jwk) -> J { J::Obj(seq![("jwk"@, jwk_to_j(k))]) }
+spec fn asm(p0: Seq<(Seq<char>, J)>, root: Seq<(Seq<char>, J)>, hk: Option<jsonwebtoken::jwk::Jwk>) -> Seq<(Seq<char>, J)> {
+    let p1 = j_append(j_insert(p0, K_SD_ALG(), J::Str("sha-256"@)), root);
+    match hk { Some(k) => if j_has(p1, "cnf"@) { p1 } else { p1.push(("cnf"@, cnf_j(k))) }, None => p1 }
+}
+// what the issuer signs: the marked claims p0 (user claims without iss/iat/exp, with exactly the designated nodes
+// replaced by digests), then `_sd_alg`, the always-visible members in clear, and `cnf` only when a holder key is bound
+spec fn payload_of(p: Seq<(Seq<char>, J)>, u: Seq<(Seq<char>, J)>, s: Strat, hk: Option<jsonwebtoken::jwk::Jwk>) -> bool {
+    exists|p0: Seq<(Seq<char>, J)>| #![trigger asm(p0, only_root(u), hk)]
+        p == asm(p0, only_root(u), hk)
+        && drop_sd_entries(p0) == strip_members(without_root(u), s, without_root(u).len())
+        && !j_has(p0, K_DOTS()) && sd_list_ok(p0)
+}
+proof fn lemma_without_root_ok(m: Seq<(Seq<char>, J)>)
+    ensures
+        !has_reserved_entries(m) ==> !has_reserved_entries(without_root(m)),
+        wf_entries(m) ==> wf_entries(without_root(m)),
+        keys_unique(m) ==> keys_unique(without_root(m)),
+        forall|i: int| 0 <= i < without_root(m).len() ==> exists|p: int| 0 <= p < m.len() && #[trigger] m[p] == #[trigger] without_root(m)[i],
+    decreases m.len()
+{
+    if m.len() > 0 {
+        lemma_without_root_ok(m.drop_last());
+        let w = without_root(m); let w0 = without_root(m.drop_last());
+        assert forall|i: int| 0 <= i < w.len() implies exists|p: int| 0 <= p < m.len() && #[trigger] m[p] == #[trigger] w[i] by {
+            if i < w0.len() { let p = choose|p: int| 0 <= p < m.drop_last().len() && m.drop_last()[p] == w0[i]; assert(m[p] == w[i]); }
+            else { assert(m[m.len() - 1] == w[i]); }
+        }
+        if keys_unique(m) {
+            assert(keys_unique(m.drop_last()));
+            assert forall|i: int, k: int| 0 <= i < k < w.len() implies w[i].0 != w[k].0 by {
+                if k == w0.len() && !is_root_key(m.last().0) {
+                    let p = choose|p: int| 0 <= p < m.drop_last().len() && m.drop_last()[p] == w0[i];
+                    assert(m[p].0 != m[m.len() - 1].0);
+                }
+            }
+        }
+        if !is_root_key(m.last().0) { assert(w.drop_last() =~= w0); }
+    }
+}
+// ---- the two serializations of (jwt, disclosures, kb) (C10) ----
+spec fn compact_of(jwt: Seq<char>, ds: Seq<Seq<char>>, kb: Seq<char>) -> Seq<char> { join_tilde(seq![jwt] + ds) + "~"@ + kb }
+spec fn opt_seq_j(kb: Option<Seq<char>>) -> J { match kb { Some(k) => J::Str(k), None => J::Null } }
+spec fn json_of(a: Seq<char>, b: Seq<char>, c: Seq<char>, ds: Seq<Seq<char>>, kb: Option<Seq<char>>) -> Seq<char> {
+    serde_json::ser_text(J::Obj(seq![("protected"@, J::Str(a)), ("payload"@, J::Str(b)), ("signature"@, J::Str(c)),
+        ("disclosures"@, J::Arr(str_js(ds))), ("kb_jwt"@, opt_seq_j(kb))]))
+}
+// str::split('.') : the pieces contain no '.', and rejoin to the original
+spec fn join_dots(p: Seq<Seq<char>>) -> Seq<char> decreases p.len() {
+    if p.len() == 0 { Seq::empty() } else if p.len() == 1 { p[0] } else { join_dots(p.drop_last()) + "."@ + p.last() }
+}
+spec fn split_dots_ok(s: Seq<char>, p: Seq<Seq<char>>) -> bool {
+    join_dots(p) == s && forall|i: int| 0 <= i < p.len() ==> !(#[trigger] p[i]).contains('.')
+}
